@@ -127,6 +127,10 @@ func NewStoreWithConfig(cfg Config) *Store {
 	}
 	s.regions = newRegionManager(cfg.Manifest, combinedHooks)
 	s.command = newCommandPipeline(cfg.CommandApplier)
+	s.command.proposedHere = func(peerID uint64) bool {
+		_, ok := s.peers.get(peerID)
+		return ok
+	}
 	s.operations = newOperationScheduler(queueSize, operationInterval, operationCooldown, operationBurst, s.applyOperation, s.operationHook)
 	if cfg.Manifest != nil {
 		s.regions.loadSnapshot(cfg.Manifest.RegionSnapshot())
